@@ -70,7 +70,7 @@ where
     match pre.get c with
     | some p => if p.type == .metaT then
         match p.ref with
-        | some r => r :: ((lookup cfg.blocks r).getD [])
+        | some r => r :: ((lookup cfg.blocks r).getD ((lookup cfg.lost r).getD []))
         | none => []
       else []
     | none => []
